@@ -27,6 +27,7 @@ func init() {
 	ruleText["R15.7"] = "for every case of gta's switch over node kinds that creates variable symbols (directly or in a directly called in-package function), each &symbol{kind: varSym} literal records the declaration node (and the global flag if getVarDependencies tests it), in the literal or by an assignment in the same case"
 	ruleText["R15.9"] = "getVarDependencies stores nothing outside its own locals (same analysis as C05/R05.6): no dependency set is remembered across variables in a map or field supplied by the caller"
 	ruleText["R15.10"] = "in the function looping over its []*node roots to collect their declarations, every call of a function reaching getVarDependencies is outside all loops and receives the slice accumulated over the roots"
+	ruleText["R15.11"] = "in gta, the block executed after a successful importSrc assigns scope.types = universe.types before any statement that can leave the block (whatever the form of the import)"
 	ruleText["R15.8"] = "in the defineStmt and defineXStmt cases of gta no in-package resolving call assigns the pass's named error result (cfgErrorf excepted) and the node is appended to the revisit list"
 	ruleText["R15.4"] = "the function collecting the dependencies of a package variable handles function symbols (refers to funcSym): dependencies that pass through function bodies are followed"
 }
@@ -46,6 +47,7 @@ func runC15(c *Config, r *Report) {
 	c15R7(ic, r)
 	c15R8(ic, r)
 	c15R10(ic, r)
+	c15R11(ic, r)
 	// R15.9: the dependency collector recomputes its answer for each variable
 	pureFuncs(ic, r, "R15.9", []string{"getVarDependencies"}, 1, "recomputed-for-each-variable",
 		"the variables reached through a function body depend on where the walk entered a cycle of mutually recursive functions (the function being visited is skipped), so a result remembered for one variable is incomplete for the next one: its initializer is ordered before a variable it reads through the other function and sees the zero value", false)
@@ -1065,4 +1067,89 @@ func allCalls(n ast.Node) []*ast.CallExpr {
 		return true
 	})
 	return out
+}
+
+// c15R11: importing a source package allocates the variables of that package in the global
+// frame (the nested importSrc grows universe.types). The importer's scope must take over the
+// new layout before it allocates anything else, whatever the form of the import (named, dot or
+// blank), otherwise its next package variables reuse the slots of the imported package and the
+// importer's initialisation overwrites the state the imported package's initialisation
+// produced. In gta, the block executed after a successful importSrc assigns
+// <scope>.types = <interp>.universe.types before any statement that can leave the block.
+func c15R11(ic *IC, r *Report) {
+	fi := ic.fn(r, "Interpreter.gta")
+	if fi == nil {
+		return
+	}
+	info := ic.Info
+	typesFld := ic.field("scope", "types")
+	if typesFld == nil {
+		r.Errorf("anchor not resolved: scope.types")
+		return
+	}
+	n := 0
+	ast.Inspect(fi.Decl.Body, func(m ast.Node) bool {
+		ifs, ok := m.(*ast.IfStmt)
+		if !ok || ifs.Init == nil {
+			return true
+		}
+		if len(callsIn(info, ifs.Init, false, "interp.Interpreter.importSrc")) == 0 {
+			return true
+		}
+		// the success branch: err == nil -> Body, err != nil -> Else
+		var success *ast.BlockStmt
+		if be, ok := unparen(ifs.Cond).(*ast.BinaryExpr); ok && types.ExprString(be.Y) == "nil" {
+			if be.Op == token.EQL {
+				success = ifs.Body
+			} else if eb, ok := ifs.Else.(*ast.BlockStmt); ok && be.Op == token.NEQ {
+				success = eb
+			}
+		}
+		if success == nil {
+			return true
+		}
+		n++
+		state := "missing"
+		for _, st := range success.List {
+			if as, ok := st.(*ast.AssignStmt); ok && len(as.Lhs) == 1 && selField(info, as.Lhs[0]) == typesFld &&
+				strings.HasSuffix(types.ExprString(as.Rhs[0]), "universe.types") {
+				state = "ok"
+				break
+			}
+			leaves := false
+			depth := 0
+			var visit func(k ast.Node) bool
+			visit = func(k ast.Node) bool {
+				switch x := k.(type) {
+				case *ast.FuncLit:
+					return false
+				case *ast.ForStmt, *ast.RangeStmt, *ast.SwitchStmt, *ast.TypeSwitchStmt, *ast.SelectStmt:
+					depth++
+					for _, c := range childrenOf(k) {
+						ast.Inspect(c, visit)
+					}
+					depth--
+					return false
+				case *ast.ReturnStmt:
+					leaves = true
+				case *ast.BranchStmt:
+					if x.Tok == token.GOTO || x.Label != nil || depth == 0 {
+						leaves = true
+					}
+				}
+				return true
+			}
+			ast.Inspect(st, visit)
+			if leaves {
+				state = "a statement at " + ic.pos(st.Pos()) + " can leave the block first"
+				break
+			}
+		}
+		r.Check(state == "ok", "R15.11", fmt.Sprintf("gta/source-import#%d/scope-takes-over-the-frame-layout", n), ic.pos(ifs.Pos()), "the scope's type vector is resynchronised before anything else",
+			"after a successful importSrc the importing scope does not always take over the grown global frame layout (scope.types = universe.types: "+state+"): for that form of import (e.g. import _ \"driver\") the importer's next package variables are allotted the slots of the imported package's variables, and the importer's initialisation overwrites the state that package's initialisation produced")
+		return true
+	})
+	if n == 0 {
+		r.Errorf("R15.11: no `if ... = interp.importSrc(...); err == nil` found in gta")
+	}
 }
